@@ -34,7 +34,7 @@ SIZE = {"C12": 2000, "C11": 1000, "C10": 750, "C17": 400}
 # cases appended behind the first SIZE ones (so that those stay as recorded): constellations the first generator never builds -
 # a header column shared by two signals (`IO_out` is the expected column of the bidirectional IO *and* of an output or a declared
 # virtual signal that is itself called IO_out) with different widths; an input the header omits in front of listed ones
-EXTRA = {"C07": 80, "C06": 80, "C03": 60, "C14": 40, "C02": 40, "C05": 40, "C11": 400, "C13": 150, "C10": 160, "C12": 300, "C19": 80}
+EXTRA = {"C07": 80, "C06": 80, "C03": 60, "C14": 40, "C02": 40, "C05": 40, "C11": 400, "C13": 150, "C10": 160, "C12": 300, "C19": 80, "C17": 150}
 # C11 extra cases: undamaged signal lists, but a `C` may stand in ANY column (an output's, a bidirectional signal's `_out`
 # column, a virtual signal's): the recorded verdict says which of these bind
 
@@ -280,6 +280,10 @@ class Gen:
         out.append("driver value " + val)
         if self.p(0.3):
             out.append("driver layout rev")
+        if f == "C06" and self.exotic and self.p(0.5):
+            # C06 speaks of "the previous input vector handed to the driver": that includes a vector whose call failed
+            out.append(f"driver failat {r.randrange(2, 7)}")
+            out.append("continue")
         if f == "C13" and self.exotic:
             # several failing calls (two in a row, or everything from some call on) around clocked rows
             n0 = r.randrange(1, 7)
@@ -320,6 +324,14 @@ class Gen:
         self.block([(c[1], c[2]) for c in cols], [], readable, 0, [])
         if not any(l and not l.startswith(("#", "let", "declare", "loop", "end", "while", "resetRandom")) and l != hdr for l in self.lines):
             self.lines.append(self.row([(c[1], c[2]) for c in cols], [], readable))
+        if f == "C19" and self.exotic and self.p(0.6):
+            # comments made of multi-byte characters in front of rows: a line is counted in line breaks, not in bytes or characters
+            k = 0
+            while k < len(self.lines):
+                if self.lines[k] != hdr and self.p(0.35):
+                    self.lines.insert(k, "# " + r.choice(["äöüÄÖÜßäöüÄÖÜßäöüÄÖÜß", "ЖЖЖЖЖЖЖЖЖЖЖЖЖЖЖЖЖЖЖЖ", "日本語日本語日本語日本語日本語", "😀😀😀😀😀😀😀😀"]) * r.randrange(1, 4))
+                    k += 1
+                k += 1
         nl = "\r\n" if f == "C19" and self.p(0.3) else "\n"
         if f == "C19" and self.exotic:
             # carriage returns that are not part of a CRLF pair are blank space (C20 lists them among the blanks), not line breaks
@@ -411,11 +423,18 @@ class Draws:
     and yields the row `(z = d(m+1))`, which must be 1; every row inside the block is written to yield 1 as well."""
     K = "1000000"
 
-    def __init__(self, rnd):
+    def __init__(self, rnd, wide=False):
         self.r = rnd
         self.lines = []
         self.nrows = 0
         self.tmp = 0
+        # wide: two further one-bit columns, so that a row can hold `bits(2, e)` - one evaluation of e, hence one draw per random in it
+        self.wide = wide
+
+    def row(self, e):
+        if self.wide and self.r.random() < 0.4:
+            return f"1 bits(2, ((({e}) & 0) + 2))"
+        return f"((({e}) & 0) + 1)" + (" 0 0" if self.wide else "")
 
     def rx(self):
         return f"random({self.K})"
@@ -458,7 +477,7 @@ class Draws:
                 total += n
             elif c < 0.55:
                 e, n = self.expr(1)
-                self.lines.append(f"((({e}) & 0) + 1)")
+                self.lines.append(self.row(e))
                 self.nrows += mult
                 total += n
             elif c < 0.75:
@@ -471,7 +490,7 @@ class Draws:
             elif c < 0.85:
                 m = r.randrange(0, 4)
                 e, n = self.expr(1)
-                self.lines.append(f"repeat({m}) ((({e}) & 0) + 1)")
+                self.lines.append(f"repeat({m}) " + self.row(e))
                 self.nrows += mult * m
                 total += m * n
             else:
@@ -489,11 +508,13 @@ class Draws:
     def scenario(self):
         m = self.block(0, 1)
         pre = [f"let d{k} = {self.rx()};" for k in range(1, m + 2)]
-        prog = ["A"] + pre + ["resetRandom;"] + self.lines + [f"let z = {self.rx()};", f"(z = d{m + 1})"]
+        pad = " 0 0" if self.wide else ""
+        prog = ["A B D" if self.wide else "A"] + pre + ["resetRandom;"] + self.lines + [f"let z = {self.rx()};", f"(z = d{m + 1})" + pad]
         # a second reset replays from the start again
-        prog += ["resetRandom;", f"let y = {self.rx()};", "(y = d1)"]
+        prog += ["resetRandom;", f"let y = {self.rx()};", "(y = d1)" + pad]
         self.nrows += 2
-        return "signal in A 8 0\nmaxrows 400\nprogram\n" + "\n".join(prog) + "\n", self.nrows
+        sig = "signal in A 8 0\n" + ("signal in B 1 0\nsignal in D 1 0\n" if self.wide else "")
+        return sig + "maxrows 400\nprogram\n" + "\n".join(prog) + "\n", self.nrows
 
 
 def many_x(rnd):
@@ -538,11 +559,11 @@ def generate(focus, n=None):
                 sc = "\n".join(lines)
             cases.append(sc)
             continue
-        if k >= base:
+        if k >= base and focus != "C17":
             cases.append(Gen(rnd, focus, exotic=True).scenario())
             continue
         if focus == "C17":
-            cases.append(Draws(rnd).scenario())
+            cases.append(Draws(rnd, wide=k >= base).scenario())
         elif focus == "C12":
             cases.append(damage_program(rnd, Gen(rnd, rnd.choice(["C08", "C01", "C05", "C14", "C19"])).scenario()))
         elif focus == "C11":
@@ -852,8 +873,8 @@ def check(focus):
                 rows = o.get("rows") or []
                 if o.get("outcome") != "ok":
                     bad.append(f"{prof}: outcome {o.get('outcome')}")
-                elif len(rows) != c["expect"]["c17_nrows"] or any("[A=1]" not in r_ for r_ in rows):
-                    wrong = [r_ for r_ in rows if "[A=1]" not in r_][:2]
+                elif len(rows) != c["expect"]["c17_nrows"] or any(not re.search(r"\[A=1[ \]]", r_) for r_ in rows):
+                    wrong = [r_ for r_ in rows if not re.search(r"\[A=1[ \]]", r_)][:2]
                     bad.append(f"{prof}: the draw after the block is not draw number m+1 of the replayed sequence, or a row is missing "
                                f"({len(rows)} rows, {c['expect']['c17_nrows']} prescribed; rows that are not 1: {wrong})")
             if bad:
